@@ -391,7 +391,7 @@ func (self *TextCommandConverter) WriteTextLockAndUnLockCommandResult(textProtoc
 
 	bufIndex += copy(wbuf[bufIndex:], []byte("\r\n$5\r\nCOUNT"))
 
-	tr = fmt.Sprintf("%d", lockCommandResult.Count+1)
+	tr = fmt.Sprintf("%d", uint32(lockCommandResult.Count)+1)
 	bufIndex += copy(wbuf[bufIndex:], []byte(fmt.Sprintf("\r\n$%d\r\n", len(tr))))
 	bufIndex += copy(wbuf[bufIndex:], []byte(tr))
 
@@ -403,7 +403,7 @@ func (self *TextCommandConverter) WriteTextLockAndUnLockCommandResult(textProtoc
 
 	bufIndex += copy(wbuf[bufIndex:], []byte("\r\n$6\r\nRCOUNT"))
 
-	tr = fmt.Sprintf("%d", lockCommandResult.Rcount+1)
+	tr = fmt.Sprintf("%d", uint16(lockCommandResult.Rcount)+1)
 	bufIndex += copy(wbuf[bufIndex:], []byte(fmt.Sprintf("\r\n$%d\r\n", len(tr))))
 	bufIndex += copy(wbuf[bufIndex:], []byte(tr))
 
